@@ -22,7 +22,7 @@ RULE = (
     "edge with a drawn density in {0, 0.02, 0.05, 0.1, 0.3, 1}; optional node relabelling. Non-trivial = some component has >= 3 nodes and is not a "
     "clique (membership only through a chain)."
 )
-ASSUMPTIONS = ["the comparison function is symmetric and pure (looked up from the generated edge set)", "input sound events are pairwise distinct objects"]
+ASSUMPTIONS = ["the comparison function is symmetric and pure (looked up from the generated edge set)", "input sound events are pairwise distinct objects (some may compare equal to each other: copies)"]
 EXHAUSTIVE = True
 
 
@@ -52,7 +52,9 @@ def random_graph(draw):
         k = max(1, int(len(ps) * dens))
         idx = draw(st.lists(st.integers(0, len(ps) - 1), min_size=0, max_size=k, unique=True))
         edges = [list(ps[i]) for i in sorted(idx)]
-    return {"n": n, "edges": edges}
+    ncopies = draw(st.sampled_from([0, 0, 1, 2, 3]))
+    copies = [[draw(st.integers(0, n - 1)), draw(st.integers(0, n - 1))] for _ in range(ncopies)]
+    return {"n": n, "edges": edges, "copies": [c for c in copies if c[0] != c[1]]}
 
 
 def components(n, edges):
@@ -98,6 +100,9 @@ def check(spec, ctx):
         edges = [tuple(e) for e in spec["edges"]]
     eset = {frozenset(e) for e in edges}
     events = list(_events(n))
+    for i, j in spec.get("copies", []):
+        # position i holds a separate object that compares equal to the event at position j (e.g. loaded twice)
+        events[i] = _events(n)[j].model_copy()
     index = {id(e): i for i, e in enumerate(events)}
     calls = []
 
